@@ -75,6 +75,11 @@ def oracle(case, obs):
     stopped = True
     for step, (a, o) in enumerate(zip([None] + case["actions"], obs)):
         if a is not None and a[0] == "multi":
+            # back-to-back calls: a source that was stopped before them and is stopped after them has begun no cycle
+            if stopped and a[1] and a[1][-1] == "stop" and o["stopped"] and o["deliv"]:
+                out.append(("C18", "C18/emit-after-stop/%s/back-to-back" % sp["k"],
+                            "step %d %r: the source was stopped before and after these calls but delivered %r" % (step, a[1], o["deliv"])))
+                break
             stopped = o["stopped"]
             continue
         if a is not None and a[0] != "start" and stopped and o["deliv"]:
@@ -118,12 +123,12 @@ def gen(rng, tier):
 def exhaustive(tier):
     """every start/stop placement around the suspension points of short runs"""
     cases = []
-    alphabet = [["start"], ["stop"], ["ack"], ["adv", 2]]
+    alphabet = [["start"], ["stop"], ["ack"], ["adv", 2], ["multi", ["start", "stop"]]]
     n = 5 if tier == "quick" else 7
     for sp in ({"k": "periodic", "poll": 2}, {"k": "iterable", "items": [10, 11, 12]}):
         for sink in ("ctl", "sync"):
-            for seq in itertools.product(range(4), repeat=n):
-                if seq[0] != 0:
+            for seq in itertools.product(range(5), repeat=n):
+                if seq[0] not in (0, 4):
                     continue
                 cases.append({"src": sp, "sink": sink, "actions": [alphabet[i] for i in seq]})
     return cases
